@@ -44,6 +44,9 @@ type Outcome struct {
 	Evals      int      // number of elementary evaluations in this case (default 1)
 	NTCount    int      // for block cases of enumerators: distinct non-trivial points inside (distinct by construction)
 	Observed   any      // extra data for the replay file (history, trace)
+	// Inconclusive: the case could not be decided (e.g. a thread blocked outside the scheduler's hooks);
+	// never a violation; the driver turns it into exit 2 when nothing else was found.
+	Inconclusive string
 }
 
 // Fail is a convenience constructor.
@@ -139,29 +142,32 @@ const maxHashes = 1 << 21
 
 // Partial is the per-process evidence fragment read by the driver.
 type Partial struct {
-	Property    string              `json:"property"`
-	Unit        string              `json:"unit"`
-	Shard       int                 `json:"shard"`
-	Tier        string              `json:"tier"`
-	Seed        uint64              `json:"seed"`
-	Rule        string              `json:"rule"`
-	Evaluations int64               `json:"evaluations"`
-	Cases       int64               `json:"cases"`
-	NonTrivial  int64               `json:"nontrivial_cases"`
-	Distinct    int64               `json:"distinct_nontrivial_local"`
-	ByConstr    int64               `json:"distinct_by_construction"`
-	Saturated   bool                `json:"hashset_saturated"`
-	Skipped     int64               `json:"skipped_excluded"`
-	Labels      map[string]int      `json:"labels"`
-	Samples     []any               `json:"samples"`
-	Exhaustive  bool                `json:"exhaustive"`
-	Requested   int                 `json:"requested"`
-	Completed   bool                `json:"completed"`
-	Violations  int                 `json:"violations"`
-	Known       map[string]KnownHit `json:"known"`
-	Assumes     []string            `json:"assumes"`
-	WallS       float64             `json:"wall_s"`
-	HashFile    string              `json:"hash_file"`
+	Property          string              `json:"property"`
+	Unit              string              `json:"unit"`
+	Shard             int                 `json:"shard"`
+	Tier              string              `json:"tier"`
+	Seed              uint64              `json:"seed"`
+	Rule              string              `json:"rule"`
+	Evaluations       int64               `json:"evaluations"`
+	Cases             int64               `json:"cases"`
+	NonTrivial        int64               `json:"nontrivial_cases"`
+	Distinct          int64               `json:"distinct_nontrivial_local"`
+	ByConstr          int64               `json:"distinct_by_construction"`
+	Saturated         bool                `json:"hashset_saturated"`
+	Skipped           int64               `json:"skipped_excluded"`
+	Labels            map[string]int      `json:"labels"`
+	Samples           []any               `json:"samples"`
+	Exhaustive        bool                `json:"exhaustive"`
+	Requested         int                 `json:"requested"`
+	Completed         bool                `json:"completed"`
+	Violations        int                 `json:"violations"`
+	Known             map[string]KnownHit `json:"known"`
+	Assumes           []string            `json:"assumes"`
+	WallS             float64             `json:"wall_s"`
+	HashFile          string              `json:"hash_file"`
+	Inconclusive      int64               `json:"inconclusive_cases"`
+	InconclusiveFirst string              `json:"inconclusive_first"`
+	Extra             map[string]any      `json:"extra,omitempty"`
 }
 
 type KnownHit struct {
@@ -254,6 +260,12 @@ func (r *recorder[C]) one(c C) Outcome {
 	}
 	if out.Skipped {
 		r.p.Skipped++
+	}
+	if out.Inconclusive != "" {
+		r.p.Inconclusive++
+		if r.p.InconclusiveFirst == "" {
+			r.p.InconclusiveFirst = out.Inconclusive + " | case=" + string(js)
+		}
 	}
 	if out.NTCount > 0 {
 		r.p.ByConstr += int64(out.NTCount)
